@@ -359,7 +359,7 @@ theorem tfinish_ok {s : VMState} (s1 : VMState) (e : Exit) (hcp : s1.codepos = s
         simp only [c2.facts.noback2]
         refine Or.inr ⟨?_, tp, rfl⟩
         first | rfl | trivial
-    | cons cc o' d rest S τ0 τ' cl0 cl' h1 h2 h3 h4 h5 h6 =>
+    | cons cc o' d rest S τ0 τ' cl0 cl' h1 h2 h3 h4 h5 _hlen h6 =>
       rw [htr] at hold ⊢
       simp only [List.cons_append] at hold ⊢
       obtain ⟨w3, hf3, ho3⟩ := opAt_spec h2
